@@ -253,3 +253,14 @@ Theorem unshielded_cancellation_refuted : forall fx,
    caller_outcome (snd r') 0 = OCancelled /\ caller_outcome (snd r') 1 = OConnectionError).
 Proof. exact unshielded_cancellation_refuted_l. Qed.
 Print Assumptions unshielded_cancellation_refuted.
+
+(* finding F6 (docs/C19.md): after a wait_connected() caller gave up -- its waiter stays registered, nobody awaits it --
+   the next wait_connected() on the still-open, not yet connected protocol ends with AssertionError ("already awaiting
+   connected"): a connect waiter that finishes with neither success nor a connection error *)
+Theorem wait_connected_after_cancel_refuted : forall sh fx,
+  let c := crun sh fx cinit wc_after_cancel_witness in
+  caller_outcome c 0 = OCancelled /\
+  closed (base c) = false /\ connected (base c) = false /\
+  fst (fst (cstep sh fx c (CBase OWaitConnected))) = Some X_ALREADY_AWAITING.
+Proof. exact wait_connected_after_cancel_refuted_l. Qed.
+Print Assumptions wait_connected_after_cancel_refuted.
